@@ -75,13 +75,13 @@ var profiles = map[string]Profile{
 		"WriteUpdateWithXattrs": 6, "DeleteWithXattrs": 4, "WriteSubDoc": 1, "Backfill": 1}, MinOps: 6, MaxOps: 30, MaxKeys: 2, MaxColl: 1, SmallDoc: 25, OnDiskPct: 10, ExpPct: 30},
 	"C08": {Name: "C08", FaultPct: 50, W: baseWeights(4).with("Purge", 1), MinOps: 6, MaxOps: 30, MaxKeys: 3, MaxColl: 2, SmallDoc: 10, OnDiskPct: 10, ExpPct: 30},
 	"C09": {Name: "C09", FaultPct: 40, W: baseWeights(3).with("Backfill", 14, "Purge", 1), MinOps: 6, MaxOps: 26, MaxKeys: 4, MaxColl: 2, OnDiskPct: 15, ExpPct: 30},
-	"C11": {Name: "C11", FaultPct: 50, W: baseWeights(4).with("Purge", 2, "Backfill", 1, "Touch", 10, "GetAndTouchRaw", 6, "RecreateColl", 5, "PutDDoc", 3, "View", 6, "Query", 5), MinOps: 8, MaxOps: 30, MaxKeys: 2, MaxColl: 3, ReadAll: true, TwoBucketsPct: 50, OnDiskPct: 15, ExpPct: 40},
+	"C11": {Name: "C11", FaultPct: 50, W: baseWeights(4).with("Purge", 2, "Backfill", 1, "Touch", 10, "GetAndTouchRaw", 6, "RecreateColl", 5, "EnsureColl", 4, "PutDDoc", 3, "View", 6, "Query", 5), MinOps: 8, MaxOps: 30, MaxKeys: 2, MaxColl: 3, ReadAll: true, TwoBucketsPct: 50, OnDiskPct: 15, ExpPct: 40},
 	"C12": {Name: "C12", FaultPct: 40, W: weights{"Set": 10, "SetRaw": 2, "Add": 3, "Delete": 4, "Remove": 1, "WriteCas": 4, "Update": 3, "Incr": 2, "SetXattrs": 4, "UpdateXattrs": 2,
 		"WriteWithXattrs": 4, "WriteTombstoneWithXattrs": 3, "WriteResurrectionWithXattrs": 2, "DeleteWithXattrs": 2, "WriteUpdateWithXattrs": 2, "WriteSubDoc": 2,
 		"Touch": 1, "Purge": 2, "SetWithMeta": 2, "DeleteWithMeta": 1, "PutDDoc": 5, "DelDDoc": 1, "View": 22, "Reopen": 1}, MinOps: 8, MaxOps: 30, MaxKeys: 4, MaxColl: 2, OnDiskPct: 20, ReopenPct: 50, ExpPct: 5, ViewBodies: true},
 	"C19": {Name: "C19", W: weights{"Set": 10, "Add": 3, "Delete": 4, "Remove": 1, "WriteCas": 4, "Update": 3, "Incr": 2, "SetXattrs": 4, "UpdateXattrs": 2,
 		"WriteWithXattrs": 4, "WriteTombstoneWithXattrs": 3, "WriteResurrectionWithXattrs": 2, "DeleteWithXattrs": 2, "WriteUpdateWithXattrs": 2, "WriteSubDoc": 2,
-		"Touch": 1, "Purge": 2, "Query": 20, "Reopen": 1}, MinOps: 6, MaxOps: 26, MaxKeys: 4, MaxColl: 3, OnDiskPct: 50, ReopenPct: 50, ExpPct: 5, ViewBodies: true, JSONOnly: true},
+		"Touch": 1, "Purge": 2, "Query": 20, "Reopen": 1, "RecreateColl": 2, "DeleteSubDocPaths": 3, "RemoveXattrs": 2}, MinOps: 6, MaxOps: 26, MaxKeys: 4, MaxColl: 3, OnDiskPct: 50, ReopenPct: 50, ExpPct: 5, ViewBodies: true, JSONOnly: true},
 	"C14": {Name: "C14", FaultPct: 40, W: weights{"Set": 6, "SetRaw": 3, "Add": 4, "AddRaw": 2, "WriteCas": 5, "Delete": 3, "Remove": 1, "Update": 3, "Incr": 3, "Touch": 8, "GetAndTouchRaw": 4,
 		"UpdateXattrs": 4, "WriteWithXattrs": 5, "WriteResurrectionWithXattrs": 2, "WriteTombstoneWithXattrs": 2, "WriteUpdateWithXattrs": 3, "SetXattrs": 1, "SetWithMeta": 2,
 		"DeleteWithXattrs": 1, "WriteSubDoc": 1, "Advance": 14, "Reopen": 3, "Purge": 1}, MinOps: 5, MaxOps: 26, MaxKeys: 3, MaxColl: 2, OnDiskPct: 30, ReopenPct: 100, ExpPct: 75, ShortExp: true},
@@ -154,6 +154,14 @@ func (g *gen) bigBody(json bool) string {
 	}
 	if json {
 		return fmt.Sprintf(`{"pad":"%s"}`, pad)
+	}
+	return string(pad)
+}
+
+func (g *gen) midBody() string {
+	pad := make([]byte, 50+g.r.Intn(70))
+	for i := range pad {
+		pad[i] = 'm'
 	}
 	return string(pad)
 }
@@ -231,6 +239,9 @@ func (g *gen) casMode(wCur, wZero, wStale, wBogus int) string {
 
 func (g *gen) expVal() uint32 {
 	if g.p.ShortExp {
+		if g.r.Chance(40) {
+			return uint32(1 + g.r.Intn(4))
+		}
 		return uint32(1 + g.r.Intn(40))
 	}
 	return uint32(5000 + g.r.Intn(100000))
@@ -283,7 +294,7 @@ func (g *gen) op(kind string) Op {
 	op := Op{Kind: kind}
 	op.Key = g.keys[g.r.Intn(len(g.keys))]
 	op.Coll = g.r.Intn(g.ncoll)
-	if g.twoB && g.r.Chance(25) && kind != "Backfill" && kind != "Purge" && kind != "Reopen" && kind != "Restart" && kind != "Advance" && kind != "Clock" && kind != "RecreateColl" && kind != "HLCBurst" && kind != "PutDDoc" && kind != "DelDDoc" && kind != "View" && kind != "Query" {
+	if g.twoB && g.r.Chance(25) && kind != "Backfill" && kind != "Purge" && kind != "Reopen" && kind != "Restart" && kind != "Advance" && kind != "Clock" && kind != "RecreateColl" && kind != "EnsureColl" && kind != "HLCBurst" && kind != "PutDDoc" && kind != "DelDDoc" && kind != "View" && kind != "Query" {
 		op.Handle, op.Coll = 9, 0
 	}
 	small := g.p.SmallDoc > 0
@@ -305,6 +316,8 @@ func (g *gen) op(kind string) Op {
 		}
 		if small && g.r.Chance(8) {
 			op.Body = strp(g.bigBody(false))
+		} else if small && g.r.Chance(35) {
+			op.Body = strp(g.midBody())
 		}
 		g.exp(&op)
 		if kind == "SetRaw" {
@@ -327,6 +340,10 @@ func (g *gen) op(kind string) Op {
 		case 3, 4:
 			op.WOpt = int(sgbucket.Append)
 			op.Body = strp(g.rawBody())
+			if small && g.r.Chance(60) {
+				// pieces that fit the size limit one by one but not together
+				op.Body = strp(g.midBody())
+			}
 			op.CasMode = g.casMode(6, 1, 2, 1)
 		case 5:
 			op.WOpt = int(sgbucket.Raw)
@@ -528,6 +545,14 @@ func (g *gen) op(kind string) Op {
 		op.Key = ""
 		op.Coll = 0
 		op.Dur = []int{1, 2, 3, 5, 8, 13, 30, 60}[g.r.Intn(8)]
+		if g.r.Chance(50) {
+			// not a whole number of seconds: later writes happen at a fraction of a second, so that the
+			// expiry timer (armed in whole seconds from the write) fires some time AFTER the expiry time
+			op.Amt = uint64(100 * (1 + g.r.Intn(9)))
+			if g.r.Chance(30) {
+				op.Dur = 0
+			}
+		}
 	case "PutDDoc":
 		op.Key = []string{"dd1", "dd2"}[g.r.Intn(2)]
 		op.Xattrs = map[string]string{}
@@ -551,9 +576,9 @@ func (g *gen) op(kind string) Op {
 			op.Handle = g.r.Intn(2) // design documents are replaced and queried through either of two handles
 		}
 	case "Query":
-		kinds := []string{"ids", "idbody", "idge", "num", "str", "xattr", "count"}
+		kinds := []string{"ids", "idbody", "idge", "num", "str", "xattr", "count", "xnull"}
 		if !g.p.JSONOnly {
-			kinds = []string{"ids", "idge", "xattr", "count"} // raw bodies around: only queries that do not parse the body
+			kinds = []string{"ids", "idge", "xattr", "count", "xnull"} // raw bodies around: only queries that do not parse the body
 		}
 		op.Key = ""
 		op.Path = kinds[g.r.Intn(len(kinds))]
@@ -574,6 +599,8 @@ func (g *gen) op(kind string) Op {
 		op.Key = ""
 		op.Coll = 0
 		op.Dur = []int{100, 5000, 70000, 140000}[g.r.Intn(4)]
+	case "EnsureColl":
+		op.Key = ""
 	case "RecreateColl":
 		op.Key = ""
 		if g.ncoll > 1 {
@@ -613,6 +640,14 @@ func GenE1(prop string, seed uint64) *Program {
 		// expiry must stay inside its collection: short deadlines and idle periods
 		g.p.ShortExp = true
 		g.p.W = g.p.W.with("Advance", 8)
+		p = g.p
+	}
+	if prop == "C19" && r.Chance(25) {
+		// documents whose expiry time passes while the queries go on: a query must keep showing a
+		// document for exactly as long as a read does
+		g.p.ShortExp = true
+		g.p.ExpPct = 60
+		g.p.W = g.p.W.with("Advance", 12)
 		p = g.p
 	}
 	nk := 1 + r.Intn(p.MaxKeys)
@@ -656,6 +691,12 @@ func GenE1(prop string, seed uint64) *Program {
 		// take effect exactly once)
 		for i := 0; i < 1+r.Intn(2); i++ {
 			prog.Faults = append(prog.Faults, FaultSpec{AtOp: r.Intn(n), Kind: 5, Offset: r.Intn(2)})
+		}
+	}
+	if p.FaultPct > 0 && r.Chance(p.FaultPct/3) {
+		// one statement of some operation fails (1-2 per run): the call must fail as a whole, or work
+		for i := 0; i < 1+r.Intn(2); i++ {
+			prog.Faults = append(prog.Faults, FaultSpec{AtOp: r.Intn(n), Kind: 6, Offset: r.Intn(24)})
 		}
 	}
 	if prog.OnDisk && p.FaultPct > 0 && r.Chance(p.FaultPct) {
